@@ -630,15 +630,59 @@ func hasStringPrefix(b []byte, prefix string) bool {
 }
 
 // materializeRow builds the delivered row map from rowBytes. The
-// string(rowBytes) conversion makes one independent copy, and everything gjson
-// materializes references that copy — so delivered rows never alias the
+// string(rowBytes) conversion makes one independent copy, and everything
+// materialized references that copy — so delivered rows never alias the
 // scanned block buffer, which is released (and must be assumed reusable) after
-// the scan. gjson materializes JSON numbers as float64, matching
-// encoding/json.
+// the scan. The result is what encoding/json would decode from the same bytes
+// into a map[string]any: JSON numbers as float64, the last of duplicate object
+// keys wins, and every invalid UTF-8 byte inside a string becomes U+FFFD (raw
+// JSON rows can carry both; gjson's own Value keeps the first duplicate and
+// passes invalid bytes through, hence the explicit walk).
 func materializeRow(rowBytes []byte) (map[string]any, error) {
-	row, ok := gjson.Parse(string(rowBytes)).Value().(map[string]any)
-	if !ok {
+	value := gjson.Parse(string(rowBytes))
+	if !value.IsObject() {
 		return nil, fmt.Errorf("row is not a JSON object")
 	}
-	return row, nil
+	return materializeValue(value).(map[string]any), nil
+}
+
+// materializeValue converts a parsed JSON value to its generic Go form.
+func materializeValue(value gjson.Result) any {
+	switch value.Type {
+	case gjson.String:
+		return toValidUTF8(value.Str)
+	case gjson.Number:
+		return value.Num
+	case gjson.True:
+		return true
+	case gjson.False:
+		return false
+	case gjson.JSON:
+		if value.IsObject() {
+			object := make(map[string]any)
+			value.ForEach(func(key, child gjson.Result) bool {
+				object[toValidUTF8(key.String())] = materializeValue(child)
+				return true
+			})
+			return object
+		}
+		if value.IsArray() {
+			array := make([]any, 0)
+			value.ForEach(func(_, child gjson.Result) bool {
+				array = append(array, materializeValue(child))
+				return true
+			})
+			return array
+		}
+	}
+	return nil
+}
+
+// toValidUTF8 replaces each invalid UTF-8 byte of s with U+FFFD, as
+// encoding/json does when it decodes a string.
+func toValidUTF8(s string) string {
+	if utf8.ValidString(s) {
+		return s
+	}
+	return string([]rune(s))
 }
